@@ -257,6 +257,8 @@ def check(ctx):
     # ---- Tracker itself ----------------------------------------------------------------------
     _tracker(ix, rep)
     _shots(ix, rep)
+    from .c73_extra import check_extra
+    check_extra(ctx, rep)
     return rep
 
 
